@@ -260,7 +260,7 @@ class C24(Check):
                    "un-pivoted routines (LU, fraction_free_LU, fraction_free_LDU, LU_solve, inverse_LU, fraction-free "
                    "eliminations) are judged only on matrices whose leading principal minors are all non-zero; LDL / cholesky / "
                    "LDL_solve only on real symmetric positive definite matrices; QR only on real full-column-rank matrices"]
-    tiers = {"quick": {"examples": 9000}, "thorough": {"examples": 300000}}
+    tiers = {"quick": {"examples": 6000}, "thorough": {"examples": 200000}}
     timeout = 60.0
 
     def strategy(self, tier):
@@ -285,7 +285,8 @@ class C24(Check):
             self.cls(name)
             if is_exc(r):
                 if r["exc"] == "VerifAssertFailure":
-                    self.skip("assert_seen")
+                    # reported by C03 only (GUIDE); counted separately when it happens inside a routine's precondition
+                    self.skip("assert_seen" if fn is None else "assert_seen_in_domain")
                 elif r["exc"] == "Dep":
                     self.skip("dep")
                 else:
